@@ -267,6 +267,9 @@ func runC11(c *eng.Ctx) {
 	// ---- 5b. the write buffer's end marker covers every written slot -------------------------------------------------------------------
 	c.Rule("SYMMETRY", "tsdb/memdb.write{end marker only grows}", func() { endMarkerOnlyGrows(c) })
 
+	// ---- 5c. Aggregate(stored, incoming): the argument order is part of the meaning of Last / First -----------------------------------
+	c.Rule("SYMMETRY", "series/field.AggType.Aggregate{(stored, incoming) at every call site}", func() { aggregateArgumentOrder(c) })
+
 	// ---- shared with C03 ---------------------------------------------------------------------------------------------------------------
 	c.Rule("ANCHOR", mfT+".FlushSeries{startAt}", func() { flusherAnchors(c) })
 	c.Rule("LAYOUT", "tsdb/tblstore/metricsdata{block footer}", func() { blockFooter(c) })
@@ -403,5 +406,93 @@ func endMarkerOnlyGrows(c *eng.Ctx) {
 	}
 	if n < 2 {
 		c.Undecided("expected the end marker to be written in write and writeFirstPoint, found %d stores", n)
+	}
+}
+
+// aggregateArgumentOrder (F14): AggType.Aggregate(a, b) combines the value already held (a, the earlier one) with the value
+// that arrives (b, the later one): Last answers b and First answers a, so the order of the arguments is not a matter of
+// style.  Every call site of the module is classified below by what each argument is; a site that passes them the other way
+// round gives Last/First the opposite meaning on that path only (memory and flushed data then disagree).
+func aggregateArgumentOrder(c *eng.Ctx) {
+	p := c.P
+	fromCall := func(names ...string) func(ssa.Value) bool {
+		return func(v ssa.Value) bool {
+			return eng.DependsOn(v, func(x ssa.Value) bool {
+				cl, ok := x.(*ssa.Call)
+				if !ok {
+					return false
+				}
+				n := ""
+				if cl.Common().IsInvoke() {
+					n = cl.Common().Method.Name()
+				} else if g := cl.Common().StaticCallee(); g != nil {
+					n = baseName(g.Name())
+				}
+				return inList(n, names)
+			})
+		}
+	}
+	isParam := func(name string) func(ssa.Value) bool {
+		return func(v ssa.Value) bool {
+			return eng.DependsOn(v, func(x ssa.Value) bool { pr, ok := x.(*ssa.Parameter); return ok && pr.Name() == name })
+		}
+	}
+	loadOfParamSlice := func(name string) func(ssa.Value) bool {
+		return func(v ssa.Value) bool {
+			u, ok := eng.Unwrap(v).(*ssa.UnOp)
+			if !ok || u.Op != token.MUL {
+				return false
+			}
+			ia, ok := u.X.(*ssa.IndexAddr)
+			return ok && isParam(name)(ia.X)
+		}
+	}
+	// element of the local / parameter slice with that source name
+	loadOfNamedSlice := func(name string) func(ssa.Value) bool {
+		return func(v ssa.Value) bool {
+			u, ok := eng.Unwrap(v).(*ssa.UnOp)
+			if !ok || u.Op != token.MUL {
+				return false
+			}
+			ia, ok := u.X.(*ssa.IndexAddr)
+			if !ok {
+				return false
+			}
+			d := p.Desc(ia.X)
+			return d == name || strings.HasSuffix(d, ":"+name) || loadOfParamSlice(name)(v)
+		}
+	}
+	type role struct {
+		stored, incoming func(ssa.Value) bool
+		what             string
+	}
+	table := map[string]role{
+		"tsdb/memdb.write":                        {fromCall("BytesToFloat64"), isParam("value"), "stored = the slot's value in the write buffer, incoming = the written value"},
+		"tsdb/memdb.merge":                        {fromCall("getOldFloatValue"), fromCall("getCurrentValue"), "stored = the compressed (earlier) value, incoming = the write buffer's (later) value"},
+		"aggregation.DownSamplingMultiSeriesInto": {loadOfNamedSlice("targetValues"), fromCall("Value"), "stored = the target slot, incoming = the decoded source value"},
+		"aggregation.fieldAggregator.AggregateBySlot": {fromCall("GetValue"), isParam("value"), "stored = the aggregator's slot, incoming = the value handed in"},
+	}
+	n := 0
+	seen := map[string]bool{}
+	for _, s := range p.SitesInProgram(eng.AnyCallTo("series/field.AggType.Aggregate")) {
+		top := topFunc(c, s.Fn)
+		r, ok := table[top]
+		n++
+		if !ok {
+			c.Check(false, "site-classified:"+top, s.Instr, s.Fn, "every call of AggType.Aggregate is classified (which argument is the stored value, which the incoming one)", "unclassified call site in "+top)
+			continue
+		}
+		seen[top] = true
+		a := eng.CallArgs(s.Instr.(*ssa.Call))
+		okOrder := r.stored(a[0]) && r.incoming(a[1]) && !(r.stored(a[1]) && r.incoming(a[0]) && !r.incoming(a[1]))
+		swapped := r.stored(a[1]) && r.incoming(a[0])
+		c.Check(okOrder && !(swapped && !(r.stored(a[0]) && r.incoming(a[1]))), "order:"+top, s.Instr, s.Fn,
+			"Aggregate receives (stored, incoming): "+r.what, "passes ("+p.Desc(a[0])+", "+p.Desc(a[1])+")")
+	}
+	for k := range table {
+		c.Check(seen[k], "site-exists:"+k, nil, nil, "the classified call site "+k+" exists", "no call of AggType.Aggregate in "+k)
+	}
+	if n < 4 {
+		c.Undecided("expected >= 4 call sites of AggType.Aggregate, found %d", n)
 	}
 }
